@@ -345,19 +345,8 @@ fn search(a: &Args, tracer: &Tracer) {
         None => vec![],
     };
     let nq = if fixed.is_empty() { nq } else { fixed.len() };
-    let avoid = !a.flag("no-avoid");
     for qi in 0..nq {
-        let qj = if fixed.is_empty() {
-            loop {
-                let q = gen_scoring_query(&mut rng);
-                // recorded finding: a top-level DisjunctionMaxQuery of term queries is scored as a sum by block-WAND
-                if !(avoid && qlib::is_toplevel_term_dismax(&q)) {
-                    break q;
-                }
-            }
-        } else {
-            fixed[qi]["q"].clone()
-        };
+        let qj = if fixed.is_empty() { gen_scoring_query(&mut rng) } else { fixed[qi]["q"].clone() };
         let q = match qlib::build_query(&schema, &qj) {
             Ok(q) => q,
             Err(e) => {
